@@ -42,6 +42,15 @@ class Opts:
         self.fractional = False
         self.min_launch_q = 0  # minimal launch-call duration in quanta (0 allows zero-duration runtime calls)
         self.bwd_thread = False
+        # knobs added after the second round of seeded changes (inputs the property quantifies over but the generator never drew)
+        self.only_kernel_type = None  # "compute" | "comm": every kernel of the rank is of that one type (no copies), overlapping across streams
+        self.p_skew = 0.0  # device activity starts BEFORE its launch call (clock skew between host and device timestamps)
+        self.p_other_launch = 0.0  # the linked host call is a launch outside the usual names (cudaGraphLaunch, cudaLaunchCooperativeKernel, cudaMemcpy, cudaMemset)
+        self.steps_out_of_file_order = False  # ProfilerStep annotations are written after the operators, latest first
+        self.n_extra_ops = None  # number of run-specific operator names (None: 0-3); large values give a wide vocabulary
+        self.p_dual_cat = 0.0  # an operator name also occurs as a user_annotation (same name, two categories)
+        self.noncomplete_events = True  # False: every entry of the file has a duration, so the loader stores `dur` (and ids) in the narrowest integer type
+        self.distinct_corr_per_rank = True  # False: every rank counts its correlation ids from the same start (per-process counters, as real traces do)
         self.__dict__.update(kw)
 
 
@@ -49,9 +58,16 @@ def gen_rank(rng: random.Random, o: Opts, rank: int = 0) -> List[Dict[str, Any]]
     q = o.grid
     evs: List[Dict[str, Any]] = []
     # a few run-specific operator names: they change the iteration order of the symbol set, hence which symbol gets id 0
-    extra_ops = [f"aten::op_{rng.randint(0, 10**6)}" for _ in range(rng.randint(0, 3))]
+    extra_ops = [f"aten::op_{rng.randint(0, 10**6)}" for _ in range(rng.randint(0, 3) if o.n_extra_ops is None else o.n_extra_ops)]
     op_names = OP_NAMES + extra_ops
-    corr = [100 + 10_000 * rank]
+    if o.n_extra_ops and o.n_extra_ops > 20:
+        op_names = extra_ops + OP_NAMES  # wide vocabulary: the run-specific names dominate
+    kernel_names = KERNEL_NAMES
+    if o.only_kernel_type == "compute":
+        kernel_names = [k for k in KERNEL_NAMES if not k.startswith("nccl") and not k.startswith("Mem")]
+    elif o.only_kernel_type == "comm":
+        kernel_names = [k for k in KERNEL_NAMES if k.startswith("nccl")]
+    corr = [100 + (10_000 * rank if o.distinct_corr_per_rank else 0)]
     stream_free = {7 + s: o.base for s in range(o.n_streams)}
     kernels: List[Dict[str, Any]] = []
 
@@ -74,18 +90,22 @@ def gen_rank(rng: random.Random, o: Opts, rank: int = 0) -> List[Dict[str, Any]]
             name = rng.choice(["cudaDeviceSynchronize", "cudaStreamSynchronize"])
             out.append(synth.launch(lts, max(0, min(end, t1) - lts), c, tid=tid, name=name))
             return
-        is_cpy = rng.random() < o.p_memcpy
+        is_cpy = rng.random() < o.p_memcpy and o.only_kernel_type is None
         lname = "cudaMemcpyAsync" if is_cpy else rng.choice(["cudaLaunchKernel", "cudaLaunchKernel", "cudaLaunchKernelExC"])
+        if rng.random() < o.p_other_launch:
+            lname = rng.choice(["cudaMemcpy", "cudaMemset"]) if is_cpy else rng.choice(["cudaGraphLaunch", "cudaLaunchCooperativeKernel"])
         out.append(synth.launch(lts, ldur, c, tid=tid, name=lname))
         if rng.random() < o.p_missing_kernel:
             return
         s = rng.choice(sorted(stream_free))
         kts = max(stream_free[s], lts if rng.random() < o.p_same_ts_kernel else lts + q * rng.randint(0, 3))
+        if rng.random() < o.p_skew:
+            kts = max(stream_free[s], lts - q * rng.randint(1, 2))  # skewed device clock: may precede the launch call
         kdur = 0 if rng.random() < o.p_zero_kernel else q * rng.randint(1, 6)
         if is_cpy:
             k = synth.memcpy(rng.choice(MEMCPY_NAMES), kts, kdur, s, c, nbytes=1024 * rng.randint(1, 64), bw=round(rng.uniform(0.5, 20.0), 3))
         else:
-            k = synth.kernel(rng.choice(KERNEL_NAMES), kts, kdur, s, c)
+            k = synth.kernel(rng.choice(kernel_names), kts, kdur, s, c)
         kernels.append(k)
         stream_free[s] = kts + kdur + (0 if rng.random() < 0.3 else q * rng.randint(0, 2))
 
@@ -106,6 +126,8 @@ def gen_rank(rng: random.Random, o: Opts, rank: int = 0) -> List[Dict[str, Any]]
                 break
             op = synth.host_op(rng.choice(op_names), t, d, tid=tid)
             out.append(op)
+            if rng.random() < o.p_dual_cat:
+                out.append(synth.host_op(op["name"], t, d, tid=tid, cat="user_annotation"))  # same name recorded under a second category
             if depth < o.max_depth and rng.random() < 0.6:
                 # children may share start / end with the parent
                 c0 = t + (0 if rng.random() < 0.4 else q * rng.randint(0, 1))
@@ -143,15 +165,19 @@ def gen_rank(rng: random.Random, o: Opts, rank: int = 0) -> List[Dict[str, Any]]
     for _ in range(2):
         if rng.random() < o.p_orphan_kernel * 5:
             s = rng.choice(sorted(stream_free))
-            kernels.append(synth.kernel(rng.choice(KERNEL_NAMES), stream_free[s] + q, q * rng.randint(1, 3), s, new_corr()))
+            kernels.append(synth.kernel(rng.choice(kernel_names), stream_free[s] + q, q * rng.randint(1, 3), s, new_corr()))
             stream_free[s] = kernels[-1]["ts"] + kernels[-1]["dur"]
+    if o.steps_out_of_file_order and o.steps > 1:
+        steps_ev = [e for e in evs if str(e.get("name", "")).startswith("ProfilerStep#")]
+        evs = [e for e in evs if e not in steps_ev] + list(reversed(steps_ev))
     # interleave kernels into the file in a random but stable way (file order != time order)
     for k in kernels:
         pos = rng.randint(1, len(evs))
         evs.insert(pos, k)
     # some non-complete events which must be ignored by the loader
-    evs.insert(rng.randint(1, len(evs)), {"ph": "M", "name": "process_name", "pid": synth.HOST_PID, "tid": 0, "ts": 0, "args": {"name": "python"}})
-    evs.insert(rng.randint(1, len(evs)), {"ph": "i", "name": "marker", "pid": synth.HOST_PID, "tid": 1, "ts": o.base + q, "s": "t", "cat": "instant"})
+    if o.noncomplete_events:
+        evs.insert(rng.randint(1, len(evs)), {"ph": "M", "name": "process_name", "pid": synth.HOST_PID, "tid": 0, "ts": 0, "args": {"name": "python"}})
+        evs.insert(rng.randint(1, len(evs)), {"ph": "i", "name": "marker", "pid": synth.HOST_PID, "tid": 1, "ts": o.base + q, "s": "t", "cat": "instant"})
     evs.append({"ph": "X", "cat": "Trace", "name": "PyTorch Profiler (0)", "pid": synth.HOST_PID, "tid": 1, "ts": o.base, "dur": t - o.base})
     if o.fractional:
         for e in evs:
